@@ -181,12 +181,12 @@ INFO = {
     },
     "C07": {
         "cli": True,
-        "rule": "all integer polynomials with <= 5 coefficients in a small range; products of 1..4 factors irreducible by construction (Eisenstein, irreducible modulo a prime, cyclotomic, Swinnerton-Dyer type x^4+1, x^4-10x^2+1, degree 8 and 16) with multiplicities up to 12 (>= 7 included), contents, negative and non-monic leading coefficients, large coefficients, x^n - 1, zero and constants, 25 and 26 linear factors (recombination limit); the random history of factorize_mod_p inside is captured and replayed into the model; CLI (to_find = factorization, polynomials) as a process. Non-trivial: degree >= 2.",
+        "rule": "all integer polynomials with <= 5 coefficients in a small range; products of 1..4 factors irreducible by construction (Eisenstein, irreducible modulo a prime, cyclotomic, Swinnerton-Dyer type x^4+1, x^4-10x^2+1, degree 8 and 16) with multiplicities up to 12 (>= 7 included), contents, negative and non-monic leading coefficients, large coefficients, x^n - 1, zero and constants, 25 and 26 linear factors (recombination limit); the random history of factorize_mod_p inside is captured and replayed into the model; CLI (to_find = factorization, polynomials) as a process; after every factorisation the modulus bound the running code chose for each squarefree part (hook poly_z::verif::take_bounds, op pz.bound) is tested against the hypothesis boundOk of theorem accepted_bound_suffices. Non-trivial: degree >= 2.",
         "rulefn": _c07_rule,
-        "trusted": ["hooked RNG + Lean draw decoder", "irreducibility certificates of the oracle: degree 1; irreducible modulo a prime (Rabin test / brute force); incompatible factor-degree sets modulo several primes; brute-force divisor search for small cases; otherwise the construction-time expectation supplied by the harness (191 of 5093 quick cases)"],
+        "trusted": ["hooked RNG + Lean draw decoder", "hook take_bounds reports the bound actually used (one guarded line after its computation)", "irreducibility certificates of the oracle: degree 1; irreducible modulo a prime (Rabin test / brute force); incompatible factor-degree sets modulo several primes; brute-force divisor search for small cases; otherwise the construction-time expectation supplied by the harness (191 of 5093 quick cases)"],
         "gaps": ["termination: for deg a <= 25 (the routine's recombination limit) no Rust panic is reachable and the only non-answers are 'stream ran out' and exhaustion of the model's prime-search fuel (100000 primes; the Rust loop has no bound) — theorem no_panic / fuel_only_prime_search; that a random stream suffices with probability 1 is not formalised"],
         "assumptions": ["squarefree part of degree <= 25 modular factors (the implementation asserts lifted.len() <= 25; beyond that the oracle skips)"],
-        "level_text": "Full theorems about the Lean model of poly_z/mod.rs (Berlekamp-Zassenhaus) for every non-zero canonical a and EVERY stream of draws, for runs that return (c, fs): every returned factor is irreducible in Z[x] and over Q, canonical, non-constant, primitive with positive leading coefficient; the factors are pairwise distinct and coprime; every exponent is >= 1 and is the true multiplicity; c is the signed content; c * prod f^e = a EXACTLY; and the factorisation is complete (every irreducible divisor of positive degree is associated to exactly one returned factor). Proved via: the Landau-Mignotte bound (Mathlib's Mahler measure) instantiated for the routine's coefficient bound, uniqueness of Hensel lifting (subsets of lifted factors <-> divisors), the recombination loop invariant (subsets of increasing size, symmetric residues), the prime search (a genuine prime < 2^31 not dividing lc with a squarefree mod p), the fully verified modular factoriser (C08) and lifting (C11), and the unconditional integer gcd (C10). Zero and constants. Model tied to the code by replaying the captured random history; outputs also decided by an independent oracle; CLI cases.",
+        "level_text": "Full theorems about the Lean model of poly_z/mod.rs (Berlekamp-Zassenhaus) for every non-zero canonical a and EVERY stream of draws, for runs that return (c, fs): every returned factor is irreducible in Z[x] and over Q, canonical, non-constant, primitive with positive leading coefficient; the factors are pairwise distinct and coprime; every exponent is >= 1 and is the true multiplicity; c is the signed content; c * prod f^e = a EXACTLY; and the factorisation is complete (every irreducible divisor of positive degree is associated to exactly one returned factor). Proved via: the Landau-Mignotte bound (Mathlib's Mahler measure) instantiated for the routine's coefficient bound, uniqueness of Hensel lifting (subsets of lifted factors <-> divisors), the recombination loop invariant (subsets of increasing size, symmetric residues), the prime search (a genuine prime < 2^31 not dividing lc with a squarefree mod p), the fully verified modular factoriser (C08) and lifting (C11), and the unconditional integer gcd (C10). Zero and constants. The single use of the coefficient bound in the proof is also proved for ANY bound B with 2^deg(a)*|a|_1 < B (accepted_bound_suffices; the unchanged bound satisfies it: model_bound_accepted), and the check evaluates this executable hypothesis on the bound the running code reports, so a weakened bound is reported as a broken proof obligation even where no failing input is known, while a different valid bound is not. Model tied to the code by replaying the captured random history; outputs also decided by an independent oracle; CLI cases.",
         "level_note": "Trusted: Lean kernel + 3 standard axioms; Mathlib (Mahler measure, Gauss lemma, UFD); RNG hook/decoder; correspondence coverage.",
     },
     "C20": {
